@@ -120,7 +120,7 @@ Example C06_ex_unquote :
   unquote gen_tables (Tx "%41%zz%4%%C3%A9%FF%E2%82") = Tx "A%zz%4%" ++ [233; 65533; 65533].
 Proof. vm_compute. reflexivity. Qed.
 
-(* THE ROUND TRIP.  A URL with a scheme, a name/IPv4 host, a well-formed port (port_wf: absent, or e.g. any of 0..65535), an absolute
+(* THE ROUND TRIP.  A URL with a scheme - or none: a network-path reference //host/path -, a name/IPv4 host, a well-formed port (port_wf: absent, or e.g. any of 0..65535), an absolute
    path, any username, password, path segments, query pairs (key with optional value) and
    fragment: to_text(full_quote=True) succeeds, URL() of that text succeeds, and every
    component comes back as its NFC form - nothing leaks into a neighbour (scheme, host and port
@@ -133,7 +133,7 @@ Theorem C06_roundtrip : forall T O, tables_ok T = true ->
   forall scheme sep user pw fam host port rest q frag ht b4 h2,
   let nfc := o_nfc O in
   let u := mkU scheme sep user pw fam host port ([] :: rest) q frag in
-  scheme <> [] -> forallb (not_in [58; 47; 63; 35]) scheme = true ->
+  forallb (not_in [58; 47; 63; 35]) scheme = true ->
   nfc [] = [] ->
   all_scalar (nfc user) = true -> all_scalar (nfc pw) = true -> all_scalar (nfc frag) = true ->
   Forall (fun s => all_scalar (nfc s) = true) rest ->
@@ -176,7 +176,7 @@ Theorem C06_roundtrip_v6 : forall T O, tables_ok T = true ->
   forall scheme sep user pw fam host port rest q frag h2,
   let nfc := o_nfc O in
   let u := mkU scheme sep user pw fam host port ([] :: rest) q frag in
-  scheme <> [] -> forallb (not_in [58; 47; 63; 35]) scheme = true ->
+  forallb (not_in [58; 47; 63; 35]) scheme = true ->
   nfc [] = [] ->
   all_scalar (nfc user) = true -> all_scalar (nfc pw) = true -> all_scalar (nfc frag) = true ->
   Forall (fun s => all_scalar (nfc s) = true) rest ->
@@ -210,7 +210,7 @@ Theorem C06_rendered_legal : forall T O, tables_ok T = true ->
   forall scheme sep user pw fam host port rest q frag ht,
   let nfc := o_nfc O in
   let u := mkU scheme sep user pw fam host port ([] :: rest) q frag in
-  scheme_ok scheme = true -> forallb (not_in [58; 47; 63; 35]) scheme = true ->
+  (scheme = [] \/ scheme_ok scheme = true) -> forallb (not_in [58; 47; 63; 35]) scheme = true ->
   nfc [] = [] ->
   all_scalar (nfc user) = true -> all_scalar (nfc pw) = true -> all_scalar (nfc frag) = true ->
   Forall (fun s => all_scalar (nfc s) = true) rest ->
@@ -226,7 +226,7 @@ Theorem C06_rendered_legal_v6 : forall T O, tables_ok T = true ->
   forall scheme sep user pw fam host port rest q frag,
   let nfc := o_nfc O in
   let u := mkU scheme sep user pw fam host port ([] :: rest) q frag in
-  scheme_ok scheme = true -> forallb (not_in [58; 47; 63; 35]) scheme = true ->
+  (scheme = [] \/ scheme_ok scheme = true) -> forallb (not_in [58; 47; 63; 35]) scheme = true ->
   nfc [] = [] ->
   all_scalar (nfc user) = true -> all_scalar (nfc pw) = true -> all_scalar (nfc frag) = true ->
   Forall (fun s => all_scalar (nfc s) = true) rest ->
@@ -246,7 +246,7 @@ Theorem C06_fixpoint_full_partial : forall T O, tables_ok T = true ->
   forall scheme sep user pw fam host port rest q frag ht b4 h2,
   let nfc := o_nfc O in
   let u := mkU scheme sep user pw fam host port ([] :: rest) q frag in
-  scheme <> [] -> forallb (not_in [58; 47; 63; 35]) scheme = true ->
+  forallb (not_in [58; 47; 63; 35]) scheme = true ->
   nfc [] = [] -> (forall x, nfc (nfc x) = nfc x) -> (forall x, nfc x = [] -> x = []) ->
   all_scalar (nfc user) = true -> all_scalar (nfc pw) = true -> all_scalar (nfc frag) = true ->
   Forall (fun s => all_scalar (nfc s) = true) rest ->
@@ -269,14 +269,14 @@ Theorem C06_parsed_shape : forall T O t u, url_init T O t = MOk u ->
 Proof. exact parsed_shape. Qed.
 Print Assumptions C06_parsed_shape.
 
-(* ... hence the fixed point in the form the property states it: for u = URL(t), any text t with a
-   scheme and an authority (name/IPv4 host).  _partial: relative references, authority-less and
-   scheme-less forms are not covered (checked per case). *)
+(* ... hence the fixed point in the form the property states it: for u = URL(t), any text t with an
+   authority (name/IPv4 host), with or without a scheme.  _partial: references without '//' (relative
+   paths, mailto:-style, scheme-only) are not covered (checked per case). *)
 Theorem C06_fixpoint_full_parsed_partial : forall T O, tables_ok T = true ->
   forall t u ht b4 h2,
   let nfc := o_nfc O in
   url_init T O t = MOk u ->
-  u_scheme u <> [] -> u_sep u = true ->
+  u_sep u = true ->
   nfc [] = [] -> (forall x, nfc (nfc x) = nfc x) -> (forall x, nfc x = [] -> x = []) ->
   all_scalar (nfc (u_user u)) = true -> all_scalar (nfc (u_pass u)) = true -> all_scalar (nfc (u_frag u)) = true ->
   Forall (fun s => all_scalar (nfc s) = true) (tl (u_path u)) ->
@@ -294,7 +294,7 @@ Theorem C06_fixpoint_full_v6_partial : forall T O, tables_ok T = true ->
   forall scheme sep user pw fam host port rest q frag,
   let nfc := o_nfc O in
   let u := mkU scheme sep user pw fam host port ([] :: rest) q frag in
-  scheme <> [] -> forallb (not_in [58; 47; 63; 35]) scheme = true ->
+  forallb (not_in [58; 47; 63; 35]) scheme = true ->
   nfc [] = [] -> (forall x, nfc (nfc x) = nfc x) -> (forall x, nfc x = [] -> x = []) ->
   all_scalar (nfc user) = true -> all_scalar (nfc pw) = true -> all_scalar (nfc frag) = true ->
   Forall (fun s => all_scalar (nfc s) = true) rest ->
@@ -326,7 +326,7 @@ Theorem C06_roundtrip_min : forall T O, tables_ok T = true -> delims_ok T = true
   forall scheme sep user pw fam host port rest q frag b4 h2,
   let nfc := o_nfc O in
   let u := mkU scheme sep user pw fam host port ([] :: rest) q frag in
-  scheme <> [] -> forallb (not_in [58; 47; 63; 35]) scheme = true ->
+  forallb (not_in [58; 47; 63; 35]) scheme = true ->
   nfc [] = [] ->
   all_scalar (nfc user) = true -> all_scalar (nfc pw) = true ->
   Forall nopct rest -> Forall pair_okm q -> nopct frag ->
@@ -345,7 +345,7 @@ Theorem C06_fixpoint_min_partial : forall T O, tables_ok T = true -> delims_ok T
   forall scheme sep user pw fam host port rest q frag b4,
   let nfc := o_nfc O in
   let u := mkU scheme sep user pw fam host port ([] :: rest) q frag in
-  scheme <> [] -> forallb (not_in [58; 47; 63; 35]) scheme = true ->
+  forallb (not_in [58; 47; 63; 35]) scheme = true ->
   nfc [] = [] -> (forall x, nfc (nfc x) = nfc x) -> (forall x, nfc x = [] -> x = []) ->
   all_scalar (nfc user) = true -> all_scalar (nfc pw) = true ->
   Forall nopct rest -> Forall pair_okm q -> nopct frag ->
@@ -367,7 +367,7 @@ Theorem C06_fixpoint_min_parsed_partial : forall T O, tables_ok T = true -> deli
   forall t u b4,
   let nfc := o_nfc O in
   url_init T O t = MOk u ->
-  u_scheme u <> [] -> u_sep u = true ->
+  u_sep u = true ->
   nfc [] = [] -> (forall x, nfc (nfc x) = nfc x) -> (forall x, nfc x = [] -> x = []) ->
   all_scalar (nfc (u_user u)) = true -> all_scalar (nfc (u_pass u)) = true ->
   Forall nopct (tl (u_path u)) -> Forall pair_okm (u_query u) -> nopct (u_frag u) ->
